@@ -42,6 +42,15 @@ M=[
 ("C20_line_copy","parser.go","\t\t\t\tl, pos, err := parseList(json[i:], line)\n\t\t\t\tif err != nil {\n\t\t\t\t\treturn nil, 0, err\n\t\t\t\t}\n\t\t\t\ti += pos\n\t\t\t\tlist.Add(l)","\t\t\t\tcp := *line\n\t\t\t\tl, pos, err := parseList(json[i:], &cp)\n\t\t\t\tif err != nil {\n\t\t\t\t\treturn nil, 0, err\n\t\t\t\t}\n\t\t\t\ti += pos\n\t\t\t\tlist.Add(l)"),
 ("C02_list_trailing_comma","list_impl.go","\t\tif i+1 < len(ego.val) {\n\t\t\tresult.WriteRune(',')","\t\tif i < len(ego.val) {\n\t\t\tresult.WriteRune(',')"),
 ("C02_strconv_quote_value","anytype.go","\treturn quote(val)\n","\treturn strconv.Quote(val)\n"),
+# adversarial: wrong programs written in the styles the normalisations accept (each must still be reported)
+("C05_contains_empty_guard_true","list_impl.go","func (ego *list) Contains(elem any) bool {\n\tfor _, item := range ego.val {","func (ego *list) Contains(elem any) bool {\n\tif len(ego.val) == 0 {\n\t\treturn true\n\t}\n\tfor _, item := range ego.val {"),
+("C17_reverse_guard_lt3","list_impl.go","func (ego *list) Reverse() List {\n\tfor i := ego.Ego().Count()/2 - 1; i >= 0; i-- {","func (ego *list) Reverse() List {\n\tif len(ego.val) < 3 {\n\t\treturn ego.Ego()\n\t}\n\tfor i := ego.Ego().Count()/2 - 1; i >= 0; i-- {"),
+("C05_indexof_flag_no_break","list_impl.go","\tfor i, item := range ego.val {\n\t\tif item.getVal() == elem {\n\t\t\treturn i\n\t\t}\n\t}\n\treturn -1","\tindex := -1\n\tfor i, item := range ego.val {\n\t\tif item.getVal() == elem {\n\t\t\tindex = i\n\t\t}\n\t}\n\treturn index"),
+("C07_list_flag_last_only","list_impl.go","\tfor i := range ego.val {\n\t\tif !ego.val[i].isEqual(list.val[i]) {\n\t\t\treturn false\n\t\t}\n\t}\n\treturn true","\tequal := true\n\tfor i := range ego.val {\n\t\tequal = ego.val[i].isEqual(list.val[i])\n\t}\n\treturn equal"),
+("C14_foreach_pos_by_two","list_impl.go","\tfor i, item := range ego.val {\n\t\tfunction(i, item.getVal())\n\t}\n\treturn ego.Ego()","\tpos := 0\n\tfor _, item := range ego.val {\n\t\tfunction(pos, item.getVal())\n\t\tpos += 2\n\t}\n\treturn ego.Ego()"),
+("C14_filterints_collects_all","list_impl.go","\tresult := NewList()\n\tfor _, item := range ego.val {\n\t\tval, ok := item.getVal().(int)\n\t\tif ok && function(val) {\n\t\t\tresult.Add(val)\n\t\t}\n\t}\n\treturn result","\tvar kept []any\n\tfor _, item := range ego.val {\n\t\tval, ok := item.getVal().(int)\n\t\tif ok {\n\t\t\tfunction(val)\n\t\t\tkept = append(kept, val)\n\t\t}\n\t}\n\treturn NewList(kept...)"),
+("C05_delete_forever_guard_le0","list_impl.go","\tfor i := len(indexes) - 1; i >= 0; i-- {\n\t\tindex := indexes[i]","\ti := len(indexes) - 1\n\tfor {\n\t\tif i <= 0 {\n\t\t\tbreak\n\t\t}\n\t\tindex := indexes[i]\n\t\ti--"),
+("C02_list_parts_first_repeated","list_impl.go","\tvar result strings.Builder\n\tresult.WriteRune('[')\n\tfor i, value := range ego.val {\n\t\tresult.WriteString(value.serialize())\n\t\tif i+1 < len(ego.val) {\n\t\t\tresult.WriteRune(',')\n\t\t}\n\t}","\tparts := make([]string, len(ego.val))\n\tfor i, value := range ego.val {\n\t\tparts[i] = value.serialize()\n\t}\n\tvar result strings.Builder\n\tresult.WriteRune('[')\n\tfor i := 0; i < len(parts); i++ {\n\t\tif i > 0 {\n\t\t\tresult.WriteRune(',')\n\t\t}\n\t\tresult.WriteString(parts[0])\n\t}"),
 ("C01_cascade_float_first","parser.go","\tinteger, err := strconv.ParseInt(field, 0, bits.UintSize)\n\tif err == nil {\n\t\treturn int(integer), nil\n\t}\n\tfloat, err := strconv.ParseFloat(field, 64)\n\tif err == nil {\n\t\treturn float, nil\n\t}","\tfloat, err := strconv.ParseFloat(field, 64)\n\tif err == nil {\n\t\treturn float, nil\n\t}\n\tinteger, err := strconv.ParseInt(field, 0, bits.UintSize)\n\tif err == nil {\n\t\treturn int(integer), nil\n\t}"),
 ]
 
